@@ -315,7 +315,8 @@ class VariableSizedTiles:
     def __dask_tokenize__(self):
         return (
             "odc.geo.roi.VariableSizedTiles",
-            *self._offsets,
+            # tuples rather than arrays: dask prints this, numpy abbreviates long arrays
+            *(tuple(idx.tolist()) for idx in self._offsets),
         )
 
     def __str__(self) -> str:
